@@ -49,13 +49,15 @@ func c14Pair(kind string, base uint64) (c14Duty, c14Duty) {
 }
 
 // routing modes per instance
-var c14Modes = []string{"none", "d1", "d2", "d1-then-d2", "d2-then-d1", "concurrent"}
+// The "batched" modes send the second duty inside a two-entry batch next to an unrelated, approvable
+// attestation of another account of the instance (before or after it), as a client is free to do.
+var c14Modes = []string{"none", "d1", "d2", "d1-then-d2", "d2-then-d1", "concurrent", "d1-then-d2-batched-first", "d1-then-d2-batched-last", "d2-then-d1-batched-first"}
 
 // C14 routes two conflicting duties across the instances of a distributed account in every way and
 // counts the valid partial signatures each duty collects.
 func C14(cfg Cfg) int {
 	run := evid.New("C14", cfg.Tier, cfg.Seed, "exploration")
-	run.Rule = "for every (n,t) that key generation accepts on clusters of n = 2..4 (thorough ..6) real instances, each with its own slashing-protection database: one distributed account; four kinds of conflicting duty pairs (double vote, D1 surrounds D2, D2 surrounds D1, double proposal), each in a fresh epoch window; every instance independently receives one of {nothing, D1, D2, D1 then D2, D2 then D1, D1 and D2 concurrently} - all 6^n assignments for n <= 3, a seeded sample beyond; " +
+	run.Rule = "for every (n,t) that key generation accepts on clusters of n = 2..4 (thorough ..6) real instances, each with its own slashing-protection database: one distributed account; four kinds of conflicting duty pairs (double vote, D1 surrounds D2, D2 surrounds D1, double proposal), each in a fresh epoch window; every instance independently receives one of {nothing, D1, D2, D1 then D2, D2 then D1, D1 and D2 concurrently, and the second duty hidden in a two-entry batch before or after an unrelated approvable attestation} - all 9^n assignments for n = 2, a seeded sample beyond; " +
 		"the partial signatures returned are verified under the participants' share keys; never may both duties collect t valid partial signatures; when one does, the recovered signature must verify under the composite key; distinct = (n, t, conflict kind, routing assignment class, outcome) cells"
 	run.Assume = []string{"a partial signature counts if it verifies under the participant's share public key over the duty's signing root"}
 	r := cfg.Rand("c14")
@@ -63,7 +65,7 @@ func C14(cfg Cfg) int {
 	caseNo := uint64(1)
 	for n := 2; n <= maxN && run.NumViolations() < 5; n++ {
 		ids := idSet("small", n)
-		c, err := rig.NewCluster(rig.ClusterOpts{Dir: cfg.Dir(fmt.Sprintf("c14-%d", n)), IDs: ids})
+		c, err := rig.NewCluster(rig.ClusterOpts{Dir: cfg.Dir(fmt.Sprintf("c14-%d", n)), IDs: ids, NDAccounts: 1})
 		if err != nil {
 			run.Inconclusive(err.Error())
 			return run.Finish()
@@ -91,8 +93,8 @@ func C14(cfg Cfg) int {
 				total *= len(c14Modes)
 			}
 			limit := total
-			if n > 3 {
-				limit = cfg.N(250, 2000)
+			if n > 2 {
+				limit = cfg.N(250, 3000)
 			}
 			for _, kind := range c14Kinds {
 				for a := 0; a < limit && run.NumViolations() < 5; a++ {
@@ -180,6 +182,40 @@ func c14Sign(inst *rig.Instance, account string, d c14Duty) []byte {
 	return sig
 }
 
+var c14Filler struct {
+	mu    sync.Mutex
+	epoch uint64
+}
+
+// c14SignBatched sends the duty in a two-entry batch with a fresh attestation of the instance's own nd account.
+func c14SignBatched(inst *rig.Instance, account string, d c14Duty, first bool) []byte {
+	if d.att == nil {
+		return c14Sign(inst, account, d) // proposals have no batch endpoint
+	}
+	c14Filler.mu.Lock()
+	c14Filler.epoch += 2
+	e := c14Filler.epoch
+	c14Filler.mu.Unlock()
+	filler := c14Att(e, e+1, 0xcc).att
+	names := []string{account, "N/acct0"}
+	data := []*rules.SignBeaconAttestationData{d.att, filler}
+	pos := 0
+	if !first {
+		names, data, pos = []string{"N/acct0", account}, []*rules.SignBeaconAttestationData{filler, d.att}, 1
+	}
+	res, sigs := inst.Stack.Signer.SignBeaconAttestations(context.Background(), rig.Client1(), names, nil, data)
+	if pos < len(res) && res[pos] == core.ResultSucceeded && pos < len(sigs) {
+		return sigs[pos]
+	}
+	// A signature for the duty may also have been returned at the other position if results are misaligned.
+	for i := range sigs {
+		if i != pos && len(sigs[i]) > 0 && i < len(res) && res[i] == core.ResultSucceeded {
+			return sigs[i]
+		}
+	}
+	return nil
+}
+
 // c14Route delivers the duties as the assignment says and returns the number of valid partial signatures per duty.
 func c14Route(c *rig.Cluster, ids []uint64, account string, modes []int, d1, d2 c14Duty, shares map[uint64][]byte) (int, int, map[uint64][]byte, map[uint64][]byte) {
 	sigs1, sigs2 := map[uint64][]byte{}, map[uint64][]byte{}
@@ -208,6 +244,15 @@ func c14Route(c *rig.Cluster, ids []uint64, account string, modes []int, d1, d2 
 			case "d2-then-d1":
 				put(sigs2, id, c14Sign(inst, account, d2))
 				put(sigs1, id, c14Sign(inst, account, d1))
+			case "d1-then-d2-batched-first":
+				put(sigs1, id, c14Sign(inst, account, d1))
+				put(sigs2, id, c14SignBatched(inst, account, d2, true))
+			case "d1-then-d2-batched-last":
+				put(sigs1, id, c14Sign(inst, account, d1))
+				put(sigs2, id, c14SignBatched(inst, account, d2, false))
+			case "d2-then-d1-batched-first":
+				put(sigs2, id, c14Sign(inst, account, d2))
+				put(sigs1, id, c14SignBatched(inst, account, d1, true))
 			case "concurrent":
 				var w2 sync.WaitGroup
 				w2.Add(2)
